@@ -679,6 +679,15 @@ where
     }
 }
 
+thread_local! {
+    /// (column, row) of the auxiliary segment that the prover corrupts by +1 after building it
+    /// honestly (a cheating prover for the soundness monitor; None = honest)
+    static AUX_CORRUPT: std::cell::Cell<Option<(usize, usize)>> = const { std::cell::Cell::new(None) };
+}
+pub fn set_aux_corruption(c: Option<(usize, usize)>) {
+    AUX_CORRUPT.with(|x| x.set(c));
+}
+
 /// auxiliary segment as the honest prover builds it
 pub fn build_aux<B: Fld, E: FieldElement<BaseField = B>>(shape: &Shape, main: &ColMatrix<B>, rands: &[E], lagrange: Option<Vec<E>>) -> ColMatrix<E> {
     let a = shape.aux.as_ref().expect("aux shape");
@@ -692,6 +701,11 @@ pub fn build_aux<B: Fld, E: FieldElement<BaseField = B>>(shape: &Shape, main: &C
             col[i + 1] = if a.rands > 0 { col[i] * (m + rands[j % a.rands]) } else { col[i] + m };
         }
         cols.push(col);
+    }
+    if let Some((c, r)) = AUX_CORRUPT.with(|x| x.get()) {
+        if c < a.cols && r < n {
+            cols[c][r] += E::ONE;
+        }
     }
     if a.lagrange {
         let r = lagrange.expect("lagrange randomness");
